@@ -184,7 +184,7 @@ OpE ==
                   \/ (mine = {} /\ "decode" \in pend /\ Ev.res[1].code = -32700))
            /\ idres' = [x \in DOMAIN idres \cup mine |-> IF x \in mine THEN (IF IsPeerReply(Ev.res[1], x) THEN "reply" ELSE "noreply") ELSE idres[x]]
         \/ /\ Ev.err = "error"                          \* refused / send failure / stopped: nothing of it is pending
-           /\ Imp("C05", stopped \/ sendBad \/ pend # {})
+           /\ Imp("C05", stopped \/ sendBad \/ pend # {} \/ Len(ops[o].specs) = 0)     \* (a batch of nothing is refused as well)
            /\ Imp("C05", mine = {})                     \* a failed send leaves nothing registered
            /\ idres' = idres
      /\ ops' = [ops EXCEPT ![o].st = "done"]
